@@ -324,9 +324,12 @@ Lemma scf2_op_wt o x y m t : scf2_op o x y m t = true ->
   end = true.
 Proof.
   intro H. unfold scf2_op in H. apply orb_prop in H. destruct H as [H|H]; [now apply sc_op_wt|].
-  destruct o; try discriminate H. destruct t as [|sg b| | | |]; try discriminate H.
-  apply andb_prop in H. destruct H as [H _]. apply andb_prop in H. destruct H as [H1 H2].
-  apply sty_eqb_eq in H1. apply sty_eqb_eq in H2. rewrite H1, H2. cbn [is_int andb]. now rewrite ty_eqb_refl.
+  destruct o; try discriminate H.
+  - destruct t as [|sg b| | | |]; try discriminate H.
+    apply andb_prop in H. destruct H as [H _]. apply andb_prop in H. destruct H as [H1 H2].
+    apply sty_eqb_eq in H1. apply sty_eqb_eq in H2. rewrite H1, H2. cbn [is_int andb]. now rewrite ty_eqb_refl.
+  - destruct t; try discriminate H. apply ty_beq_eq in H. rewrite H. cbn [is_bool andb]. apply ty_eqb_refl.
+  - destruct t; try discriminate H. apply ty_beq_eq in H. rewrite H. cbn [is_bool andb]. apply ty_eqb_refl.
 Qed.
 
 (* ------------------------------------------------------------------ the main implication *)
